@@ -6,7 +6,9 @@ Stage B: FeVerif.Props.C02 - packedness of every struct (decide per struct), des
          fixed-layout codec with field isolation in both directions.
 Stage C: the Lean model (`c02leaves`, `c02poke`, `c02iso` driver commands) against this harness' own reading of the
          table: same leaves, same overwrite, and the isolation spec evaluated by Lean on bytes produced by Python.
-Stage D: exhaustive member probing of the Python classes against the compiler-derived descriptor.
+Stage D: exhaustive member probing of the Python classes against the compiler-derived descriptor, in every call form:
+         pack() / pack(buffer, offset) into caller-supplied buffers at zero and non-zero offsets, unpack(buffer) /
+         unpack(buffer, offset), and array members given in every equivalent spelling of one logical value.
 """
 import copy
 import json
@@ -323,12 +325,46 @@ class Probe:
             packB = None
         fixed = base[:size]
         tailB = base[size:]
+        self.units_of = units
+        self.leaves_of = leaves
+        rep['buffer_probes'] = 0
+        rep['buffer_read_probes'] = 0
+        rep['array_probes'] = 0
+
+        # ---- every call form of pack(): the object unpacked from the base encoding (every member distinct) serialised
+        #      into caller-supplied buffers at several offsets
+        if packB is not None:
+            n = len(packB)
+            offs = [0, 1, 4, 24, size, n + 3, ctx.rng.randrange(2, 200)]
+            offs += sorted(set(u['off'] for u in units if 0 < u['off']))[:: (1 if ctx.thorough else 3)]
+            if ctx.thorough:
+                offs += [ctx.rng.randrange(1, 4096) for _ in range(4)]
+            for k, off in enumerate(dict.fromkeys(offs)):
+                self.buffer_form(s, subj, objB, packB, off, k, rep, code, {'object': 'unpacked from the base encoding', 'base': base.hex()})
+
+            if objB is not None and consumedB is not None:
+                for k, off in enumerate(dict.fromkeys(offs)):
+                    if off:
+                        self.buffer_read_form(s, subj, base, off, k, snapB, consumedB, rep, {'bytes': base.hex()})
 
         for u in units:
             if self.only and (self.only.get('unit') or self.only.get('member')) and \
                     u['name'] != self.only.get('unit') and u['leaf']['path'] != self.only.get('member'):
                 continue
             self.probe_unit(s, subj, u, fixed, tailB, objB, snapB, packB, consumedB, lengths, rep, code)
+
+        # ---- array members as a whole: equivalent spellings of one logical value must give the C++ element order
+        if packB is not None:
+            by_leaf = {}
+            for u in units:
+                if u['ei'] is not None:
+                    by_leaf.setdefault(u['li'], []).append(u)
+            for li, us in by_leaf.items():
+                if self.only and (self.only.get('unit') or self.only.get('member')) and \
+                        us[0]['leaf']['path'] != self.only.get('member') and \
+                        not {self.only.get('unit'), self.only.get('member')} & set(u['name'] for u in us):
+                    continue
+                self.array_probe(s, subj, us, obj_d, objB, packB, rep, code)
 
     # -----------------------------------------------------------------------------------------------------------
     def current(self, obj, u):
@@ -405,6 +441,10 @@ class Probe:
                                % (err,), replay)
                 continue
             snap1 = snapshot(obj1)
+            self.nrforms = getattr(self, 'nrforms', 0) + 1
+            self.buffer_read_form(s, subj, buf, (4, 1, 24, 7, 20, size, 2 + ctx.rng.randrange(250))[self.nrforms % 7], self.nrforms,
+                                  snap1, consumed1, rep, {'unit': u['name'], 'pattern': p.hex(), 'mode': mode, 'bytes': buf.hex(),
+                                                          'base': replay['base']})
             changed = diff_paths(snapB, snap1)
             outside = [c for c in changed if not within(c, roots)]
             replay['changed_attributes'] = changed[:12]
@@ -513,9 +553,308 @@ class Probe:
                               '' if diff else ' (no byte changed at all)'), replay)
         elif len(b2) - len(packB) != tail_delta:
             self.violation(s, u['name'], 'size', 'encoding grew by %d bytes, expected %d' % (len(b2) - len(packB), tail_delta), replay)
+        # the same object through the caller-supplied-buffer call form, at a rotating non-zero offset
+        self.nforms = getattr(self, 'nforms', 0) + 1
+        off_b = (4, 1, 24, 7, 20, size, 2 + ctx.rng.randrange(250))[self.nforms % 7]
+        self.buffer_form(s, subj, o2, b2, off_b, self.nforms, rep, code,
+                         {'object': 'base object with %s = %r' % (u['attr'], exp), 'unit': u['name'], 'pattern': p.hex(),
+                          'mode': replay.get('mode'), 'base': replay.get('base')})
         # stage C (3): the isolation spec, evaluated by the Lean model on the two Python encodings
         self.lines.append('c02iso %d %d %s %s' % (code, u['li'], f1.hex(), f2.hex()))
         self.expect.append(('ok' if not outside else None, dict(replay, what='field isolation spec on pack() output')))
+
+
+    # -----------------------------------------------------------------------------------------------------------
+    def member_at(self, s, i):
+        """Name of the C++ member (probe unit) that owns byte i of the encoding."""
+        if i >= s['sizeof']:
+            return '*tail'
+        for u in self.units_of:
+            if u['off'] <= i < u['off'] + u['w']:
+                return u['name']
+        return '*'
+
+    def buffer_form(self, s, subj, obj, ref, off, k, rep, code, extra):
+        """pack(buffer, offset) into a caller-supplied buffer: the C++ struct starts at `offset`, so every member sits at
+        offset + offsetof(member); `ref` (the encoding pack() allocated itself, which the member probes tie to the C++
+        table) must appear at [offset, offset + len) and no other byte of the caller's buffer may change; the size
+        reported with return_buffer=False is the size of the encoding."""
+        if subj.pack_into is None:
+            return
+        ctx = self.ctx
+        key, size, n = s['key'], s['sizeof'], len(ref)
+        form = ('positional, return_buffer=False', 'keywords, return_buffer=True', 'keywords, return_buffer=False')[k % 3]
+        before = guard_bytes(off + n + 16, k)
+        buf = bytearray(before)
+        replay = dict(extra, struct=key, direction='write', call='pack(buffer, offset=%d) [%s]' % (off, form), buffer_offset=off,
+                      buffer_before=before.hex(), expected_at_offset=ref.hex())
+        ctx.case('%s|buf|%d|%d|%s' % (key, off, k % 3, ref.hex()), nontrivial=(off != 0))
+        ctx.count('write:caller-buffer')
+        rep['buffer_probes'] += 1
+        try:
+            ret = subj.pack_into(obj, buf, off, k % 3)
+        except Exception as e:
+            self.violation(s, '*', 'cannot-pack', 'pack() into a caller-supplied %d-byte buffer at offset %d raised %r (pack() '
+                           'without a buffer produced %d bytes)' % (len(buf), off, e, n), replay)
+            return
+        after = bytes(buf)
+        replay['buffer_after'] = after.hex()
+        region = after[off:off + n]
+        bad = [i for i in range(n) if region[i] != ref[i]]
+        stray = [i for i in range(len(after)) if not (off <= i < off + n) and after[i] != before[i]]
+        if bad:
+            i0 = bad[0]
+            name = self.member_at(s, i0)
+            u = next((u for u in self.units_of if u['name'] == name), None)
+            lo, w = (u['off'], u['w']) if u is not None else (i0, 1)
+            self.violation(s, name, 'offset-in-caller-buffer',
+                           'pack(buffer, offset=%d): the C++ member %s occupies [%d,%d) of the struct, i.e. buffer[%d:%d]; pack() '
+                           'without a buffer writes %s there, the buffer form left %s (bytes %s of the message differ, members %s%s)'
+                           % (off, name, lo, lo + w, off + lo, off + lo + w, ref[lo:lo + w].hex(), region[lo:lo + w].hex(),
+                              bad[:8], list(dict.fromkeys(self.member_at(s, i) for i in bad))[:8], '; buffer bytes outside the message modified: %s' % stray[:8] if stray else ''), replay)
+        elif stray:
+            self.violation(s, '*', 'writes-outside-message',
+                           'pack(buffer, offset=%d) of a %d-byte message modified buffer byte(s) %s outside [%d,%d)'
+                           % (off, n, stray[:8], off, off + n), replay)
+        if k % 3 != 1:
+            if isinstance(ret, bool) or not isinstance(ret, (int, np.integer)) or int(ret) != n:
+                self.violation(s, '*', 'size', 'pack(buffer, offset=%d, return_buffer=False) reports %r; the encoding is %d bytes '
+                               '(sizeof %d + tail %d)' % (off, ret, n, size, n - size), replay)
+        # the Lean isolation spec on (pack() output, that region of the caller's buffer) for a rotating member: parse(region) must
+        # be parse(pack()) with that member taken from the region, i.e. no other member may differ
+        if len(region) >= size and len(ref) >= size and self.leaves_of:
+            li = k % len(self.leaves_of)
+            lf = self.leaves_of[li]
+            self.lines.append('c02iso %d %d %s %s' % (code, li, ref[:size].hex(), region[:size].hex()))
+            self.expect.append(('ok' if not [i for i in bad if i < size and not (lf['offset'] <= i < lf['offset'] + lf['size'])] else None,
+                                dict(replay, what='field isolation spec on the caller-supplied-buffer form')))
+
+    def buffer_read_form(self, s, subj, msg, off, k, snap_ref, consumed_ref, rep, extra):
+        """unpack(buffer, offset) of a message that starts at `offset` of a larger buffer: the C++ struct starts there, so
+        every member is read from offset + offsetof(member); the object must equal the one unpack() builds from the
+        message alone (which the member probes tie to the C++ table) and the same number of bytes must be consumed."""
+        if subj.unpack_at is None:
+            return
+        ctx = self.ctx
+        key = s['key']
+        lead = guard_bytes(off, k)
+        buf = lead + bytes(msg)
+        replay = dict(extra, struct=key, direction='read', call='unpack(buffer, offset=%d) [%s]' % (off, ('positional', 'keywords')[k % 2]),
+                      buffer_offset=off, buffer=buf.hex())
+        ctx.case('%s|rbuf|%d|%d|%s' % (key, off, k % 2, bytes(msg).hex()))
+        ctx.count('read:caller-buffer')
+        rep['buffer_read_probes'] += 1
+        try:
+            obj, consumed = subj.unpack_at(buf, off, k % 2)
+        except Exception as e:
+            self.violation(s, '*', 'rejects-valid-bytes', 'unpack(buffer, offset=%d) raised %r for a message that unpack() accepts '
+                           'when it starts at offset 0' % (off, e), replay)
+            return
+        changed = diff_paths(snap_ref, snapshot(obj))
+        if changed:
+            name, u = '*', None
+            for cand in self.units_of:
+                if cand['attr'] and within(changed[0], [cand['attr']]):
+                    name, u = cand['name'], cand
+                    break
+            where = ' (C++ member %s, struct bytes [%d,%d), buffer[%d:%d])' % (name, u['off'], u['off'] + u['w'], off + u['off'],
+                                                                              off + u['off'] + u['w']) if u is not None else ''
+            self.violation(s, name, 'offset-in-caller-buffer',
+                           'unpack(buffer, offset=%d): attribute(s) %s%s differ from what unpack() of the same message at offset 0 yields'
+                           % (off, changed[:6], where), dict(replay, changed_attributes=changed[:12]))
+        if consumed != consumed_ref:
+            self.violation(s, '*', 'size', 'unpack(buffer, offset=%d) reports %r bytes consumed; %r at offset 0'
+                           % (off, consumed, consumed_ref), replay)
+
+    # -----------------------------------------------------------------------------------------------------------
+    def array_probe(self, s, subj, us, obj_d, objB, packB, rep, code):
+        """One array member set as a whole. C++ stores element [i] (row-major for matrices) at offset + i * elem_size;
+        the same logical value in every spelling Python accepts must produce exactly those bytes."""
+        ctx = self.ctx
+        key, size = s['key'], s['sizeof']
+        leaf, codec, mm, li = us[0]['leaf'], us[0]['codec'], us[0]['mm'], us[0]['li']
+        if codec.write != 'value' or (mm is not None and (mm.setter or mm.getter)):
+            return
+        attr = us[0]['attr'][:len(us[0]['attr']) - len(''.join('[%d]' % j for j in np.unravel_index(0, self.shape_of(leaf, mm))))]
+        shape = self.shape_of(leaf, mm)
+        toks = tokens(attr)
+        try:
+            cur = get_path(objB, toks)
+        except Exception:
+            return
+        try:
+            proto = get_path(obj_d, toks)
+        except Exception:
+            proto = cur
+        w = us[0]['w']
+        lo, hi = leaf['offset'], leaf['offset'] + leaf['size']
+        nsets = 4 if ctx.thorough else 2
+        wm = getattr(codec, 'write_max', None)
+        for j in range(nsets):
+            pats = []
+            for i, u in enumerate(us):
+                cur_i = self.current(objB, u)
+                p = None
+                if j % 2 == 1:
+                    cands = [q for q in codec.patterns(w, ctx.rng, cur_i, ctx.thorough) if not isinstance(q, tuple)]
+                    if wm is not None:
+                        cands = [q for q in cands if abs(int.from_bytes(q, 'little', signed=getattr(codec, 'signed', False))) <= wm]
+                    if cands:
+                        p = cands[(i + j // 2) % len(cands)] if i % 2 else cands[-1]
+                if p is None:
+                    p = codec.base(w, 11 + 3 * i + 5 * j, cur_i)
+                if p is None:
+                    p = bytes(packB[u['off']:u['off'] + w])
+                pats.append(p)
+            newleaf = b''.join(pats)
+            f1 = packB[:size]
+            want = f1[:lo] + newleaf + f1[hi:]
+            if want == f1:
+                continue
+            try:
+                vals = [codec.to_attr(codec.expect(want, u['off'], w), self.current(objB, u)) for u in us]
+            except Exception:
+                continue
+            # the Lean model's overwrite at the member's C++ offset is the expected encoding
+            self.lines.append('c02poke %d %d %s %s' % (code, li, f1.hex(), newleaf.hex()))
+            self.expect.append((want.hex(), {'struct': key, 'member': leaf['path'], 'what': 'overwrite of a whole array member'}))
+            for sk, (sname, value, strict) in enumerate(spellings(vals, shape, cur, proto, ctx.rng)):
+                replay = {'struct': key, 'member': leaf['path'], 'direction': 'write', 'python_attribute': attr, 'spelling': sname,
+                          'logical_value': repr(vals), 'shape': list(shape), 'offset': lo, 'elem_size': w,
+                          'expected_member_bytes': newleaf.hex(), 'packed_before': packB.hex()}
+                ctx.case('%s|%s|arr|%s|%s' % (key, leaf['path'], sname, newleaf.hex()))
+                ctx.count('write:array-spelling:' + sname)
+                rep['array_probes'] += 1
+                try:
+                    o2 = updated(copy.deepcopy(objB), toks, value)
+                    b2 = subj.pack(o2)
+                except Exception as e:
+                    if strict:
+                        self.violation(s, leaf['path'], 'cannot-pack', 'setting %s to the %s spelling of %r and packing raised %r'
+                                       % (attr, sname, vals, e), replay)
+                    else:
+                        ctx.count('array-spelling-not-accepted:' + sname)
+                    continue
+                replay['packed'] = b2.hex()
+                f2 = b2[:size]
+                if len(f2) < size or len(b2) != len(packB):
+                    self.violation(s, leaf['path'], 'size', 'pack() produced %d bytes with %s given as %s; %d expected'
+                                   % (len(b2), attr, sname, len(packB)), replay)
+                    continue
+                bad = [i for i in range(size) if f2[i] != want[i]]
+                if bad:
+                    i0 = bad[0]
+                    if lo <= i0 < hi:
+                        e0 = (i0 - lo) // w
+                        idx = ''.join('[%d]' % t for t in np.unravel_index(e0, shape))
+                        o = lo + e0 * w
+                        self.violation(s, '%s[%d]' % (leaf['path'], e0), 'array-element-order',
+                                       '%s given as %s with logical value %r: C++ element %s%s is at [%d,%d) and must hold %s (= %r); '
+                                       'pack() wrote %s there (elements %s differ)'
+                                       % (attr, sname, vals, leaf['path'], idx, o, o + w, want[o:o + w].hex(), vals[e0],
+                                          f2[o:o + w].hex(), sorted(set((i - lo) // w for i in bad if lo <= i < hi))[:9]), replay)
+                    else:
+                        self.violation(s, self.member_at(s, i0), 'offset-or-width',
+                                       'setting %s (as %s) changed byte(s) %s of the encoding; the C++ member %s occupies [%d,%d)'
+                                       % (attr, sname, bad[:8], leaf['path'], lo, hi), replay)
+                self.lines.append('c02iso %d %d %s %s' % (code, li, f1.hex(), f2.hex()))
+                self.expect.append(('ok' if not [i for i in bad if not (lo <= i < hi)] else None,
+                                    dict(replay, what='field isolation spec on pack() output (whole array member)')))
+                # and the same spelling through the caller-supplied-buffer form
+                if not bad:
+                    self.nforms = getattr(self, 'nforms', 0) + 1
+                    self.buffer_form(s, subj, o2, b2, (8, 1, 24, 5, 20, size, 2 + ctx.rng.randrange(250))[self.nforms % 7], self.nforms,
+                                     rep, code, {'object': 'base object with %s = %s spelling of %r' % (attr, sname, vals),
+                                                 'member': leaf['path']})
+
+    @staticmethod
+    def shape_of(leaf, mm):
+        return tuple(mm.shape) if (mm is not None and mm.shape) else (leaf['array_len'],)
+
+
+def guard_bytes(n, k=0):
+    """Never-zero, non-periodic-looking filler for caller-supplied buffers (a shifted copy does not match)."""
+    return bytes(0x80 | ((i * 37 + 11 * k + 5) & 0x7f) for i in range(n))
+
+
+def spellings(vals, shape, cur, proto, rng):
+    """Equivalent spellings of one logical array value: (name, python value, strict). strict = the kind of object the
+    class itself stores in the attribute (constructor default / result of unpack), so it must be accepted; the other
+    spellings may be refused by pack(), but when they are accepted the bytes must be the same."""
+    out = []
+    nd = len(shape)
+    arr_native = isinstance(proto, np.ndarray) or isinstance(cur, np.ndarray)
+    list_native = isinstance(cur, list) or isinstance(proto, list)
+    tuple_native = isinstance(cur, tuple) or isinstance(proto, tuple)
+    src = proto if isinstance(proto, np.ndarray) else (cur if isinstance(cur, np.ndarray) else None)
+    if src is not None:
+        dtype = src.dtype
+    elif all(isinstance(v, (bool, np.bool_)) for v in vals):
+        dtype = np.dtype(bool)
+    elif all(isinstance(v, (int, np.integer)) for v in vals):
+        dtype = np.dtype(np.int64)
+    else:
+        dtype = np.dtype(np.float64)
+    try:
+        A = np.array(vals, dtype=dtype).reshape(shape)
+        exact = all((a != a and v != v) or a == v for a, v in zip(A.ravel().tolist(), vals))
+    except Exception:
+        A, exact = None, False
+    nested = A.tolist() if (A is not None and exact) else None
+    if nested is None and nd == 1:
+        nested = list(vals)
+    if A is not None and exact:
+        rev = (slice(None, None, -1),) * nd
+        out.append(('ndarray C-contiguous', A.copy(order='C'), arr_native))
+        out.append(('ndarray reversed view (negative strides)', A[rev].copy()[rev], arr_native))
+        big = np.zeros(tuple(2 * d + 1 for d in shape), dtype=dtype)
+        view = big[(slice(1, None, 2),) * nd]
+        view[...] = A
+        out.append(('ndarray strided view (every second element of a larger array)', view, arr_native))
+        if nd >= 2:
+            out.append(('ndarray Fortran-ordered (np.asfortranarray)', np.asfortranarray(A), arr_native))
+            out.append(('ndarray transposed view of the transposed matrix (M.T with M = A.T.copy())',
+                        np.ascontiguousarray(A.T).T, arr_native))
+            stack = np.zeros(shape + (2,), dtype=dtype, order='F')
+            stack[..., 1] = A
+            out.append(('ndarray slice of a column-major stack', stack[..., 1], arr_native))
+        ro = A.copy()
+        ro.setflags(write=False)
+        out.append(('ndarray read-only', ro, arr_native))
+        if dtype.itemsize > 1 and dtype.kind in 'fiu':
+            out.append(('ndarray non-native byte order dtype', A.astype(dtype.newbyteorder('>' if dtype.byteorder in '=<|' else '<')), False))
+        # other dtypes that hold the values exactly
+        alts = []
+        if dtype.kind == 'f':
+            alts += [np.float32, np.float64, np.longdouble]
+            if all(v == v and float(v).is_integer() and abs(v) < 2 ** 31 for v in vals):
+                alts += [np.int64, np.int32]
+        elif dtype.kind in 'iu':
+            alts += [np.int64, np.uint64, np.int32, np.uint8, np.float64, object]
+        for dt in alts:
+            if np.dtype(dt) == dtype:
+                continue
+            try:
+                with np.errstate(all='ignore'):
+                    B = A.astype(dt)
+                same = all((b != b and v != v) or b == v for b, v in zip(B.ravel().tolist(), vals))
+            except Exception:
+                continue
+            if same:
+                out.append(('ndarray dtype %s' % np.dtype(dt).name, B, False))
+                if nd >= 2:
+                    out.append(('ndarray dtype %s Fortran-ordered' % np.dtype(dt).name, np.asfortranarray(B), False))
+    if nested is not None:
+        def tup(x):
+            return tuple(tup(y) for y in x) if isinstance(x, list) else x
+        out.append(('nested list' if nd > 1 else 'list', nested, list_native))
+        out.append(('nested tuple' if nd > 1 else 'tuple', tup(nested), tuple_native))
+    if type(cur) not in (np.ndarray, list, tuple) and isinstance(cur, (list, tuple)) and nd == 1:
+        try:
+            out.append((type(cur).__name__, type(cur)(list(vals)), True))
+        except Exception:
+            pass
+    return out
 
 
 # ---------------------------------------------------------------------------------------------------------------
@@ -607,12 +946,14 @@ def run(ctx, r, only=None):
     cov['structs_without_python_counterpart'] = no_counterpart
     cov['members_excluded'] = [dict(e, struct=k) for k, v in pr.report.items() for e in v['excluded']]
     cov['notes_on_members'] = sorted(set(n for v in pr.report.values() for n in v['notes']))
-    cov['per_struct'] = {k: {x: v[x] for x in ('python', 'sizeof', 'python_default_size', 'leaves', 'units', 'read_probes', 'write_probes')
+    cov['per_struct'] = {k: {x: v[x] for x in ('python', 'sizeof', 'python_default_size', 'leaves', 'units', 'read_probes', 'write_probes',
+                                               'buffer_probes', 'buffer_read_probes', 'array_probes')
                              if x in v} for k, v in pr.report.items()}
     cov['compilers'] = r['compilers']
     cov['generated_per_struct_lemmas'] = 4 * len(layout) + 1
     for smp in pr.expect[1:4]:
-        ctx.sample({k: smp[1].get(k) for k in ('struct', 'unit', 'pattern', 'python_attribute', 'what')})
+        ctx.sample({k: smp[1].get(k) for k in ('struct', 'unit', 'pattern', 'python_attribute', 'call', 'spelling', 'what')
+                    if smp[1].get(k) is not None})
 
 
 def search(ctx):
@@ -631,6 +972,13 @@ def check(ctx):
                        'announcements) x both directions: write the pattern into exactly the compiler-reported byte range of an otherwise '
                        'valid encoding and require that exactly the mapped Python attribute changes to the denoted value; set the attribute '
                        'and require that exactly that byte range changes to the pattern; plus total fixed size = sizeof. '
+                       'Call forms: every object packed (base object and every write probe) is also serialised with pack(buffer, offset) '
+                       'into a caller-supplied guard-filled buffer at zero and non-zero offsets (positional/keyword, return_buffer on/off): '
+                       'the same bytes at offset + offsetof(member), guards untouched, reported size = size of the encoding; every encoding '
+                       'unpacked is also unpacked with unpack(buffer, offset != 0): same object, same bytes consumed. '
+                       'Array members as a whole: per-element distinct (non-symmetric) content given in every equivalent spelling '
+                       '(C-contiguous, Fortran-ordered, transposed view, column-major slice, strided / reversed / read-only views, other byte '
+                       'order and exactly converting dtypes, nested list / tuple) must give element [i] (row-major) at offset + i * elem_size. '
                        'non-trivial = pattern differs from the base value; distinct = (struct, unit, direction, pattern)')
     ctx.assumptions += [
         'g++ (and clang++ in the thorough tier) on x86-64 stands for "the C++ compiler": the layout theorems are about the table it printed',
